@@ -483,3 +483,38 @@ func rangedOperand(lp *Loop) ssa.Value {
 	}
 	return ln.Call.Args[0]
 }
+
+// HashSealedAfterWrites: in fn every hash.Hash.Write precedes every hash.Hash.Sum (the digest is
+// taken after all ingredients were absorbed). Writes made after Sum do not reach the digest.
+func (c *Check) HashSealedAfterWrites(fn *ssa.Function, what string) bool {
+	if fn == nil {
+		return false
+	}
+	writes := findCalls(fn, "iface:hash.Hash.Write")
+	sums := findCalls(fn, "iface:hash.Hash.Sum")
+	pos := func(ci ssa.CallInstruction) int {
+		for i, ins := range ci.Block().Instrs {
+			if ins == ci.(ssa.Instruction) {
+				return i
+			}
+		}
+		return -1
+	}
+	bad := ""
+	for _, w := range writes {
+		for _, s := range sums {
+			wb, sb := w.Block(), s.Block()
+			ok := false
+			if wb == sb {
+				ok = pos(w) < pos(s)
+			} else {
+				ok = wb.Dominates(sb)
+			}
+			if !ok {
+				bad = instrPos(c.W, w.(ssa.Instruction))
+			}
+		}
+	}
+	c.Sites += len(writes) + len(sums)
+	return c.Require(len(writes) > 0 && len(sums) > 0 && bad == "", "order", shortName(fn)+"|digest taken after every ingredient", "every hash.Write precedes the hash.Sum that produces the digest ("+what+")", fmt.Sprintf("writes=%d sums=%d; a Write at %q is not ordered before the Sum", len(writes), len(sums), bad), c.W.Pos(fn.Pos()))
+}
